@@ -3912,6 +3912,464 @@ def r01_18(prog, rep, rid='R01.18'):
 
 
 # ------------------------------------------------------------------------------
+# R01.19  the list position that is occupied holds the requested index
+#
+def _index_base(e):
+    """X of `X.index` / `X['index']`"""
+    if isinstance(e, ast.Attribute) and e.attr == 'index':
+        return e.value
+    if isinstance(e, ast.Subscript) and isinstance(e.slice, ast.Constant) and \
+            e.slice.value == 'index':
+        return e.value
+    return None
+
+
+def _self_list(res, e, nid):
+    """kind ('cores' / 'gpus') when e denotes self.<kind> / self['<kind>']
+    (directly or through a local with one definition)"""
+    e = res.single(e, nid)[0]
+    if isinstance(e, ast.Call) and isinstance(e.func, ast.Name) and \
+            e.func.id in ('list', 'tuple') and len(e.args) == 1 and \
+            not e.keywords:
+        e = e.args[0]
+    k = None
+    if isinstance(e, ast.Attribute):
+        k = e.attr
+    elif isinstance(e, ast.Subscript) and isinstance(e.slice, ast.Constant):
+        k = e.slice.value
+    if k in ('cores', 'gpus') and isinstance(e.value, ast.Name) and \
+            e.value.id == 'self':
+        return k
+    return None
+
+
+def _enum_parts(res, target, it, nid):
+    """(position name | None, element name | None, kind) of
+    `for p, x in enumerate(self.<kind>)`, `for x in self.<kind>`,
+    `for p in range(len(self.<kind>))`; None for anything else"""
+    if isinstance(it, ast.Call) and isinstance(it.func, ast.Name) and \
+            not it.keywords:
+        if it.func.id == 'enumerate' and it.args and (
+                len(it.args) == 1 or (
+                    len(it.args) == 2 and isinstance(it.args[1], ast.Constant)
+                    and it.args[1].value == 0)) and \
+                isinstance(target, ast.Tuple) and len(target.elts) == 2 and \
+                all(isinstance(x, ast.Name) for x in target.elts):
+            k = _self_list(res, it.args[0], nid)
+            if k:
+                return target.elts[0].id, target.elts[1].id, k
+            return None
+        if it.func.id == 'range' and len(it.args) == 1 and \
+                isinstance(target, ast.Name):
+            a = res.single(it.args[0], nid)[0]
+            if isinstance(a, ast.Call) and isinstance(a.func, ast.Name) and \
+                    a.func.id == 'len' and len(a.args) == 1:
+                k = _self_list(res, a.args[0], nid)
+                if k:
+                    return target.id, None, k
+            return None
+    if isinstance(target, ast.Name):
+        k = _self_list(res, it, nid)
+        if k:
+            return None, target.id, k
+    return None
+
+
+class _Positions:
+    """Decides for one function whether the value of an expression is a
+    position p of self.<kind> for which `self.<kind>[p].index == <request>
+    .index` was established on every path to the place it is used at."""
+
+    def __init__(self, res, is_request):
+        self.res = res
+        self.g = res.g
+        self.is_request = is_request      # (expr, node id) -> bool
+
+    def _same_value(self, a, an, b, bn):
+        a = self.res.single(a, an)[0]
+        b = self.res.single(b, bn)[0]
+        if unparse(a) != unparse(b):
+            return False
+        return all(self.res.def_ids(nm, an) == self.res.def_ids(nm, bn)
+                   for nm in set(_free_names(a)))
+
+    def _loop_of(self, name, nid):
+        d = self.res.defs(name, nid)
+        if len(d) != 1 or d[0][0].kind != 'for':
+            return None
+        n = d[0][0]
+        parts = _enum_parts(self.res, n.ast.target, n.ast.iter, n.id)
+        return (n.id, parts) if parts else None
+
+    def _element_at(self, x, xn, pos, pn, kind):
+        """x (at xn) is the element of self.<kind> at position pos (at pn)"""
+        x = self.res.single(x, xn)[0]
+        if isinstance(x, ast.Subscript) and \
+                not isinstance(x.slice, ast.Slice) and \
+                _self_list(self.res, x.value, xn) == kind:
+            return self._same_value(x.slice, xn, pos, pn)
+        p = self.res.single(pos, pn)[0]
+        if isinstance(x, ast.Name) and isinstance(p, ast.Name):
+            lx = self._loop_of(x.id, xn)
+            lp = self._loop_of(p.id, pn)
+            return bool(lx and lp and lx[0] == lp[0] and lx[1][2] == kind and
+                        lx[1][1] == x.id and lx[1][0] == p.id)
+        return False
+
+    def element_tests(self, nid):
+        """the dominating tests that read the index of an element of a list
+        of the node"""
+        out = []
+        for tid, lab in guards(self.g, nid):
+            for x in walk(self.g.nodes[tid].ast):
+                b = _index_base(x)
+                if b is None or self.is_request(b, tid):
+                    continue
+                out.append(self.g.nodes[tid].ast)
+                break
+        return out
+
+    def verified(self, pos, nid, kind):
+        for tid, lab in guards(self.g, nid):
+            a = self.g.nodes[tid].ast
+            if not (isinstance(a, ast.Compare) and len(a.ops) == 1 and
+                    isinstance(a.ops[0], (ast.Eq, ast.NotEq))):
+                continue
+            if lab != ('T' if isinstance(a.ops[0], ast.Eq) else 'F'):
+                continue
+            sides = [self.res.single(s, tid)[0]
+                     for s in (a.left, a.comparators[0])]
+            for x, y in (sides, sides[::-1]):
+                bx, by = _index_base(x), _index_base(y)
+                if bx is None or by is None or not self.is_request(by, tid):
+                    continue
+                if self._element_at(bx, tid, pos, nid, kind):
+                    return True
+        return False
+
+    def comprehension(self, e, nid, kind):
+        """True / False for the searching expressions
+        `next(p for p, x in enumerate(self.<kind>) if x.index == r.index)`,
+        `[p for p, x in ... if ...][0]` and
+        `[x.index for x in self.<kind>].index(r.index)`; None otherwise"""
+        e = self.res.single(e, nid)[0]
+        if isinstance(e, ast.Call) and isinstance(e.func, ast.Attribute) and \
+                e.func.attr == 'index' and len(e.args) == 1 and \
+                not e.keywords:
+            lst = self.res.single(e.func.value, nid)[0]
+            want = _index_base(self.res.single(e.args[0], nid)[0])
+            if isinstance(lst, ast.ListComp) and len(lst.generators) == 1 \
+                    and not lst.generators[0].ifs and want is not None and \
+                    self.is_request(want, nid):
+                gen = lst.generators[0]
+                parts = _enum_parts(self.res, gen.target, gen.iter, nid)
+                b = _index_base(lst.elt)
+                if parts and parts[2] == kind and parts[0] is None and \
+                        isinstance(b, ast.Name) and b.id == parts[1]:
+                    return True
+            return None
+        comp = None
+        if isinstance(e, ast.Call) and isinstance(e.func, ast.Name) and \
+                e.func.id == 'next' and e.args and \
+                isinstance(e.args[0], ast.GeneratorExp):
+            comp = e.args[0]
+        elif isinstance(e, ast.Subscript) and \
+                isinstance(e.slice, ast.Constant) and e.slice.value == 0 and \
+                isinstance(e.value, ast.ListComp):
+            comp = e.value
+        if comp is None or len(comp.generators) != 1:
+            return None
+        gen = comp.generators[0]
+        parts = _enum_parts(self.res, gen.target, gen.iter, nid)
+        if not parts or parts[2] != kind or parts[0] is None or \
+                not (isinstance(comp.elt, ast.Name) and
+                     comp.elt.id == parts[0]):
+            return None
+        for c in gen.ifs:
+            if not (isinstance(c, ast.Compare) and len(c.ops) == 1 and
+                    isinstance(c.ops[0], ast.Eq)):
+                return None
+            sides = [c.left, c.comparators[0]]
+            for x, y in (sides, sides[::-1]):
+                bx, by = _index_base(x), _index_base(y)
+                if bx is None or by is None:
+                    continue
+                elem = (isinstance(bx, ast.Name) and bx.id == parts[1]) or (
+                    isinstance(bx, ast.Subscript) and
+                    _self_list(self.res, bx.value, nid) == kind and
+                    isinstance(bx.slice, ast.Name) and
+                    bx.slice.id == parts[0])
+                if elem and isinstance(by, ast.Name) and \
+                        by.id not in (parts[0], parts[1]) and \
+                        self.is_request(by, nid):
+                    return True
+        return False
+
+    def alternatives(self, e, nid, depth=0):
+        """[(expression, node id)]: the values e can stand for at nid"""
+        if depth > 6:
+            return [(e, nid)]
+        if isinstance(e, ast.IfExp):
+            return self.alternatives(e.body, nid, depth + 1) + \
+                self.alternatives(e.orelse, nid, depth + 1)
+        if not isinstance(e, ast.Name):
+            return [(e, nid)]
+        d = self.res.defs(e.id, nid)
+        if not d:
+            return [(e, nid)]
+        out = []
+        for n, v in d:
+            if v is not None:
+                if isinstance(v, ast.Constant) and v.value is None:
+                    continue
+                if isinstance(n.ast, (ast.Assign, ast.AnnAssign)) and \
+                        isinstance(_single_target(n.ast), ast.Name):
+                    out += self.alternatives(v, n.id, depth + 1)
+                    continue
+            if n.kind == 'for' and isinstance(n.ast.target, ast.Tuple) and \
+                    not _enum_parts(self.res, n.ast.target, n.ast.iter, n.id):
+                # for p, amount in [(<p>, <amount>) for ...]
+                names = [x.id if isinstance(x, ast.Name) else None
+                         for x in n.ast.target.elts]
+                it = self.res.single(n.ast.iter, n.id)[0]
+                if isinstance(it, (ast.ListComp, ast.GeneratorExp)) and \
+                        isinstance(it.elt, ast.Tuple) and \
+                        len(it.elt.elts) == len(names) and \
+                        names.count(e.id) == 1:
+                    out.append((it.elt.elts[names.index(e.id)], n.id))
+                    continue
+            if len(d) == 1:
+                return [(e, nid)]
+            raise AnalysisError('UNRECOGNISED-IDIOM %s: the bindings of the '
+                                'position `%s`' % (self.res.f.where, e.id))
+        return out
+
+
+def _says_nothing(res, test, tid, is_request):
+    """the test only reads the request and the length of a list of the node:
+    it cannot tell which entry sits at a position"""
+    class _Strip(ast.NodeTransformer):
+        def visit_Call(self, c):
+            if isinstance(c.func, ast.Name) and c.func.id == 'len' and \
+                    len(c.args) == 1 and not c.keywords and \
+                    _self_list(res, c.args[0], tid):
+                return ast.Constant(value=0)
+            return self.generic_visit(c)
+    import copy
+
+    def plain(e, depth=0):
+        if depth > 6:
+            return False
+        e = _Strip().visit(copy.deepcopy(e))
+        for x in walk(e):
+            if isinstance(x, (ast.Call, ast.Lambda, ast.Await)):
+                return False
+            if not isinstance(x, ast.Name):
+                continue
+            if is_request(x, tid):
+                continue
+            v = res.single(x, tid)[0]
+            if v is x or not plain(v, depth + 1):
+                return False
+        return True
+    return plain(test)
+
+
+_R19_HIST = ('NumaNode(8 cores, numa_domain_map {0: cores [0, 2, 4, 6], 1: '
+             'cores [1, 3, 5, 7]}): the Node of domain 0 holds the ROs with '
+             'index 0, 2, 4, 6 at positions 0..3.  find_slots(RankRequirements'
+             '(n_cores=1, numa=True)) twice: the second slot names core 2, '
+             'the occupation is added at position 2 (= core 4); core 2 still '
+             'looks free and the third request is handed core 2 again')
+
+
+def _check_lookup(prog, rep, rid, K, m, kind, user, done, depth=0):
+    """the lookup method m returns, on every return, a position whose element
+    carries the index of the RO it is asked for"""
+    key = (id(m), kind)
+    if key in done:
+        return
+    done.add(key)
+    rep.saw(m)
+    if depth > 3:
+        raise AnalysisError('UNRECOGNISED-IDIOM %s: chain of position look-ups'
+                            % m.where)
+    params = [p for p in m.params if p != 'self']
+    if not isinstance(m.node, ast.FunctionDef) or not params:
+        raise AnalysisError('UNRECOGNISED-IDIOM %s: look-up without an '
+                            'argument' % m.where)
+    res = _Resolver(m)
+
+    def is_request(b, nid):
+        b = res.single(b, nid)[0]
+        return isinstance(b, ast.Name) and b.id in params and \
+            not res.defs(b.id, nid)
+
+    ps = _Positions(res, is_request)
+    rets = [n for n in walk(m.node) if isinstance(n, ast.Return) and
+            n.value is not None and not (isinstance(n.value, ast.Constant)
+                                         and n.value.value is None)]
+    if not rets:
+        raise AnalysisError('UNRECOGNISED-IDIOM %s: no position is returned'
+                            % m.where)
+    for ret in rets:
+        rn = res.at(ret)
+        for e, at in ps.alternatives(ret.value, rn):
+            what = '%s: the position `%s` it returns holds the RO whose ' \
+                'index equals the index asked for' % (m.qual, short(e, 30))
+            if ps.verified(e, at, kind) or (at != rn and
+                                            ps.verified(ret.value, rn, kind)):
+                rep.ok(rid, m, what, m.loc(ret))
+                continue
+            c = ps.comprehension(e, at, kind)
+            if c is True:
+                rep.ok(rid, m, what, m.loc(ret))
+                continue
+            r = res.single(e, at)[0]
+            if isinstance(r, ast.Call) and isinstance(r.func, ast.Attribute) \
+                    and isinstance(r.func.value, ast.Name) and \
+                    r.func.value.id == 'self':
+                m2 = prog.find_method(K, r.func.attr)
+                if m2 is None:
+                    raise AnalysisError('UNRECOGNISED-IDIOM %s: `%s`'
+                                        % (m.where, short(r, 40)))
+                _check_lookup(prog, rep, rid, K, m2, kind, m, done, depth + 1)
+                continue
+            other = 'gpus' if kind == 'cores' else 'cores'
+            if ps.verified(e, at, other) or \
+                    ps.comprehension(e, at, other) is True:
+                rep.bad(rid, m, '%s:%s:list' % (m.qual, kind),
+                        '%s searches self.%s, but %s uses the position it '
+                        'returns to address self.%s: the entry that is '
+                        'occupied is not the one with the index the slot '
+                        'names whenever the two lists are ordered differently '
+                        '(NUMA domains), and the named %s stays free and is '
+                        'handed out again' % (m.qual, other, user.qual, kind,
+                                              kind[:-1]),
+                        m.loc(ret), history=_R19_HIST)
+                continue
+            b = _index_base(r)
+            seen = ps.element_tests(at) + (ps.element_tests(rn)
+                                           if at != rn else [])
+            blind = all(_says_nothing(res, res.g.nodes[t].ast, t, is_request)
+                        for t, lab in guards(res.g, rn))
+            if c is False or (b is not None and is_request(b, at)
+                              and not seen and blind):
+                tests = [short(a, 40) for a, pol in
+                         [(res.g.nodes[t].ast, lab)
+                          for t, lab in guards(res.g, rn)]]
+                rep.bad(rid, m, '%s:%s:position' % (m.qual, kind),
+                        '%s (used by %s to find the entry of self.%s that is '
+                        'occupied) returns `%s` as a list position without '
+                        'having compared the index of the entry at that '
+                        'position with the index asked for%s.  Position and '
+                        'index only agree for lists built by Node.__init__ '
+                        'from plain values; the Nodes of NUMA domains hold a '
+                        'selection of the ROs (NumaNode.__init__) and Node() '
+                        'accepts RO lists as they are: another core / gpu '
+                        'than the one the slot names is marked, the named one '
+                        'stays free and is handed out again'
+                        % (m.qual, user.qual, kind, short(ret.value, 40),
+                           ' (the return is only guarded by %s)'
+                           % ', '.join('`%s`' % t for t in tests)
+                           if tests else ''),
+                        m.loc(ret), history=_R19_HIST)
+                continue
+            raise AnalysisError(
+                'UNRECOGNISED-IDIOM %s: cannot decide whether `%s` is the '
+                'position of the entry with the index asked for'
+                % (m.where, short(ret, 50)))
+
+
+def r01_19(prog, rep, rid='R01.19'):
+    rep.rule(rid, 'Node.allocate_slot: the position of self.cores / self.gpus '
+             'whose occupation is raised was found by comparing the index of '
+             'the entry at that position with the index the slot names (on '
+             'every return of the look-up method, in the list that is '
+             'written); position and index differ for the Nodes of NUMA '
+             'domains', minimum=2)
+    done = set()
+    for f, kf in _kind_writers(prog):
+        K = f.cls
+        if K is None or not any(k.name == NODE[1] for k in prog.mro(K)):
+            continue
+        res = kf.res
+        params = set(f.params)
+
+        def is_request(b, nid, res=res):
+            # anything that is not the node itself: the entries of the slot
+            return root_name(res.single(b, nid)[0]) != 'self'
+
+        ps = _Positions(res, is_request)
+        for stmt, target, nid, key, below in kf.stores():
+            if key[0] == 'c':
+                kinds = {key[1]}
+            else:
+                kinds = _const_values(res, key)
+                if kinds is None:
+                    raise AnalysisError('UNRECOGNISED-IDIOM %s: kind written '
+                                        'by `%s`' % (f.where, short(stmt, 50)))
+            kinds = kinds & {'cores', 'gpus'}
+            if not kinds or not below:
+                continue
+            if len(kinds) != 1 or len(below) != 1:
+                raise AnalysisError('UNRECOGNISED-IDIOM %s: position written '
+                                    'by `%s`' % (f.where, short(stmt, 50)))
+            kind = sorted(kinds)[0]
+            takes = 'take' in _directions(res, stmt, key)
+            for e, at in ps.alternatives(below[0], nid):
+                r = res.single(e, at)[0]
+                if isinstance(r, ast.Call) and \
+                        isinstance(r.func, ast.Attribute) and \
+                        isinstance(r.func.value, ast.Name) and \
+                        r.func.value.id == 'self':
+                    m = prog.find_method(K, r.func.attr)
+                    if m is None:
+                        raise AnalysisError('UNRECOGNISED-IDIOM %s: `%s`'
+                                            % (f.where, short(r, 40)))
+                    _check_lookup(prog, rep, rid, K, m, kind, f, done)
+                    continue
+                if not takes:
+                    # released on the whole node the slot names (R01.16),
+                    # whose lists Node.__init__ built in index order
+                    continue
+                rep.saw(f)
+                what = '%s: `%s` raises the occupation of the entry whose ' \
+                    'index equals the index the slot names' \
+                    % (f.qual, short(stmt, 50))
+                if ps.verified(e, at, kind) or ps.verified(below[0], nid,
+                                                           kind) or \
+                        ps.comprehension(e, at, kind) is True:
+                    rep.ok(rid, f, what, f.loc(stmt))
+                    continue
+                b = _index_base(r)
+                if b is not None and is_request(b, at) and \
+                        not ps.element_tests(at) and \
+                        not ps.element_tests(nid) and all(
+                            _says_nothing(res, res.g.nodes[t].ast, t,
+                                          is_request)
+                            for t, lab in guards(res.g, nid)):
+                    rep.bad(rid, f, '%s:%s:position' % (f.qual, kind),
+                            '%s: `%s` uses the index the slot names (`%s`) as '
+                            'the position in self.%s without comparing the '
+                            'index of the entry at that position.  Position '
+                            'and index only agree for lists built by '
+                            'Node.__init__ from plain values; the Nodes of '
+                            'NUMA domains hold a selection of the ROs '
+                            '(NumaNode.__init__): another %s than the one '
+                            'the slot names is marked, the named one stays '
+                            'free and is handed out again'
+                            % (f.qual, short(stmt, 60), short(r, 30), kind,
+                               kind[:-1]),
+                            f.loc(stmt), history=_R19_HIST)
+                    continue
+                raise AnalysisError(
+                    'UNRECOGNISED-IDIOM %s: cannot decide whether `%s` '
+                    'addresses the entry with the index the slot names'
+                    % (f.where, short(stmt, 60)))
+
+
+# ------------------------------------------------------------------------------
 #
 def run(prog, rep, tier):
     rep.decided = ('single writer of node occupancy (only _change_slot_states '
@@ -3955,6 +4413,7 @@ def run(prog, rep, tier):
     rep.attempt(r01_16, prog, rep)
     rep.attempt(r01_17, prog, rep)
     rep.attempt(r01_18, prog, rep)
+    rep.attempt(r01_19, prog, rep)
     if tier == 'thorough':
         # sweep: the single-writer rule over every scheduler class that
         # inherits the node-list representation
@@ -4202,6 +4661,24 @@ MUTATIONS = [
     dict(name='R01.17 (C03-r10 shape) key loop: state written after the loop over the slot entries', rules=('R01.17',), edits=[
         (_B, "        # for node_name, node_index, cores, gpus in slots['ranks']:\n        for slot in slots:\n\n            # Find the entry in the slots list\n\n            # TODO: [Optimization] Assuming 'node_index' is the ID of the node,\n            #       it seems a bit wasteful to have to look at all of the nodes\n            #       available for use if at most one node can have that uid.\n            #       Maybe it would be worthwhile to simply keep a list of nodes\n            #       that we would read, and keep a dictionary that maps the uid\n            #       of the node to the location on the list?\n\n            node = None\n            node_found = False\n            for node in self.nodes:\n                if node['index'] == slot['node_index']:\n                    node_found = True\n                    break\n\n            if not node_found:\n                raise RuntimeError('inconsistent node information')\n\n            # iterate over cores/gpus in the slot, and update state\n            for core in slot['cores']:\n                node['cores'][core['index']] = new_state\n\n            for gpu in slot['gpus']:\n                node['gpus'][gpu['index']] = new_state\n\n            if slot['lfs']:\n                if new_state == rpc.BUSY:\n                    node['lfs'] -= slot['lfs']\n                else:\n                    node['lfs'] += slot['lfs']\n\n            if slot['mem']:\n                if new_state == rpc.BUSY:\n                    node['mem'] -= slot['mem']\n                else:\n                    node['mem'] += slot['mem']\n",
              "        # `lfs` and `mem` are amounts: they are taken from the node when the\n        # slot becomes BUSY, and are given back to the node otherwise\n        sign = -1 if new_state == rpc.BUSY else 1\n\n        # for node_name, node_index, cores, gpus in slots['ranks']:\n        for slot in slots:\n\n            # Find the entry in the slots list\n\n            # TODO: [Optimization] Assuming 'node_index' is the ID of the node,\n            #       it seems a bit wasteful to have to look at all of the nodes\n            #       available for use if at most one node can have that uid.\n            #       Maybe it would be worthwhile to simply keep a list of nodes\n            #       that we would read, and keep a dictionary that maps the uid\n            #       of the node to the location on the list?\n\n            node_index = slot['node_index']\n            for node in self.nodes:\n                if node['index'] == node_index:\n                    break\n            else:\n                raise RuntimeError('inconsistent node information')\n\n            # iterate over cores/gpus in the slot, and update state\n            for kind in ('cores', 'gpus'):\n                for ro in slot[kind]:\n                    ro_idx = ro['index']\n                node[kind][ro_idx] = new_state\n\n            for kind in ('lfs', 'mem'):\n                amount = slot[kind]\n                if amount:\n                    node[kind] += sign * amount\n")]),
+    dict(name='R01.19 (C01-i5) fast path of the core look-up returns the index as position without comparing the entry', rules=('R01.19',), edits=[
+        (_N, '    def _get_core_index(self, ro):\n\n        for i, _ro in enumerate(self.cores):\n            if _ro.index == ro.index:\n                return i\n',
+             '    def _get_core_index(self, ro):\n\n        # cores are stored in index order: no need to search the list\n        if ro.index < len(self.cores):\n            return ro.index\n\n        for i, _ro in enumerate(self.cores):\n            if _ro.index == ro.index:\n                return i\n')]),
+    dict(name='R01.19 the same fast path in the gpu look-up, through a local', rules=('R01.19',), edits=[
+        (_N, '    def _get_gpu_index(self, ro):\n\n        for i, _ro in enumerate(self.gpus):\n            if _ro.index == ro.index:\n                return i\n',
+             '    def _get_gpu_index(self, ro):\n\n        pos = ro.index\n        if len(self.gpus) > pos:\n            return pos\n\n        for i, _ro in enumerate(self.gpus):\n            if _ro.index == ro.index:\n                return i\n')]),
+    dict(name='R01.19 allocate_slot addresses the core list by the index the slot names', rules=('R01.19',), edits=[
+        (_N, '                c_idx = self._get_core_index(ro)\n                self.cores[c_idx].occupation += ro.occupation\n',
+             '                c_idx = ro.index\n                self.cores[c_idx].occupation += ro.occupation\n')]),
+    dict(name='R01.19 fast path as a conditional expression in allocate_slot', rules=('R01.19',), edits=[
+        (_N, '                g_idx = self._get_gpu_index(ro)\n                self.gpus[g_idx].occupation += ro.occupation\n',
+             '                g_idx = ro.index if ro.index < len(self.gpus) \\\n                        else self._get_gpu_index(ro)\n                self.gpus[g_idx].occupation += ro.occupation\n')]),
+    dict(name='R01.19 core position looked up in the gpu list', rules=('R01.19',), edits=[
+        (_N, '                c_idx = self._get_core_index(ro)\n                self.cores[c_idx].occupation += ro.occupation\n',
+             '                c_idx = self._get_gpu_index(ro)\n                self.cores[c_idx].occupation += ro.occupation\n')]),
+    dict(name='R01.19 look-up by generator expression without the comparison', rules=('R01.19',), edits=[
+        (_N, '    def _get_core_index(self, ro):\n\n        for i, _ro in enumerate(self.cores):\n            if _ro.index == ro.index:\n                return i\n',
+             '    def _get_core_index(self, ro):\n\n        if ro.index < len(self.cores):\n            return next(i for i, _ro in enumerate(self.cores) if i == ro.index)\n\n        for i, _ro in enumerate(self.cores):\n            if _ro.index == ro.index:\n                return i\n')]),
 ]
 
 SILENT = [
@@ -4370,4 +4847,22 @@ SILENT = [
     dict(name='Pilot.nodelist: cache read through a local and getattr', edits=[
         (_P, '        if not self._nodelist:\n',
              "        kept = getattr(self, '_nodelist', None)\n        if not kept:\n")]),
+    dict(name='Node._get_core_index: fast path that does compare the entry at the position', edits=[
+        (_N, '    def _get_core_index(self, ro):\n\n        for i, _ro in enumerate(self.cores):\n            if _ro.index == ro.index:\n                return i\n',
+             '    def _get_core_index(self, ro):\n\n        # fast path: lists built by __init__ are in index order\n        if ro.index < len(self.cores) and \\\n                self.cores[ro.index].index == ro.index:\n            return ro.index\n\n        for i, _ro in enumerate(self.cores):\n            if _ro.index == ro.index:\n                return i\n')]),
+    dict(name='Node._get_core_index: range(len()) loop, early-continue form, renamed locals', edits=[
+        (_N, '    def _get_core_index(self, ro):\n\n        for i, _ro in enumerate(self.cores):\n            if _ro.index == ro.index:\n                return i\n',
+             '    def _get_core_index(self, wanted):\n\n        for pos in range(len(self.cores)):\n            if self.cores[pos].index != wanted.index:\n                continue\n            return pos\n')]),
+    dict(name='Node._get_gpu_index: position kept in a local, returned after the loop; hoisted index', edits=[
+        (_N, '    def _get_gpu_index(self, ro):\n\n        for i, _ro in enumerate(self.gpus):\n            if _ro.index == ro.index:\n                return i\n',
+             '    def _get_gpu_index(self, ro):\n\n        want  = ro.index\n        found = None\n        for i, _ro in enumerate(self.gpus):\n            if _ro.index == want:\n                found = i\n                break\n\n        if found is not None:\n            return found\n')]),
+    dict(name='Node._get_core_index: next() over a generator expression', edits=[
+        (_N, "    def _get_core_index(self, ro):\n\n        for i, _ro in enumerate(self.cores):\n            if _ro.index == ro.index:\n                return i\n\n        raise ValueError('invalid core index %s' % ro.index)\n",
+             "    def _get_core_index(self, ro):\n\n        try:\n            return next(i for i, _ro in enumerate(self.cores)\n                          if  _ro.index == ro.index)\n        except StopIteration:\n            pass\n\n        raise ValueError('invalid core index %s' % ro.index)\n")]),
+    dict(name='Node._get_gpu_index: list.index over the indexes of the entries', edits=[
+        (_N, '    def _get_gpu_index(self, ro):\n\n        for i, _ro in enumerate(self.gpus):\n            if _ro.index == ro.index:\n                return i\n',
+             '    def _get_gpu_index(self, ro):\n\n        known = [_ro.index for _ro in self.gpus]\n        if ro.index in known:\n            return known.index(ro.index)\n')]),
+    dict(name='Node.allocate_slot: look-up inlined, entry compared in the writer itself', edits=[
+        (_N, '                c_idx = self._get_core_index(ro)\n                self.cores[c_idx].occupation += ro.occupation\n',
+             '                for c_idx, _ro in enumerate(self.cores):\n                    if _ro.index != ro.index:\n                        continue\n                    self.cores[c_idx].occupation += ro.occupation\n                    break\n')]),
 ]
